@@ -22,7 +22,8 @@ NOT MODELLED (reached through T3 and the oracle only):
   * `Proto.names` / `recursive_field_types` (the collision set): restated in harness/props/c02.py
     (`file_collisions`) and compared with the real set on every case; the model takes it as input;
   * `Proto.python_modules` (which import lines are printed, their order), `types/__init__.py.j2`
-    (the re-export list), docstrings, `raw_page` / `done` properties of _message.py.j2;
+    (the re-export list), docstrings, the BODIES of the `raw_page` / `done` properties of _message.py.j2
+    (the names they bind in the class body are modelled: `classBody`);
   * `_pb_options` of enums (`allow_alias`): compared on the run-time descriptor by the oracle;
   * message-level order of `oneof_decl` / nested types and the placement of classes (oracle: nesting);
   * `api.naming` (module namespace / versioned module name: C11's model);
@@ -387,6 +388,50 @@ def pythonImportPackage (apiPackage : Name) (apiSegs apiRoot : List Name) (deps 
   if apiPackage.isPrefixOf (joinDots a.package) then apiRoot ++ a.package.drop apiSegs.length ++ ["types".toList]
   else if isProtoPlus apiPackage deps a.package then versionedPackage a.package ++ ["types".toList]
   else a.package
+
+/-! ### The class body of a message as Python executes it -/
+
+/-- what a name of the class body of a message class is bound to -/
+inductive Member where
+  | nested                 -- a nested enum / message class
+  | rawPage                -- `@property def raw_page(self): return self` (pager helper)
+  | field (i : Nat)        -- the declaration of the i-th field (`proto.Field` / `RepeatedField` / `MapField`)
+  | done                   -- `@property def done(self) -> bool` (extended-operation helper)
+deriving DecidableEq, Repr
+
+/-- the namespace a class body fills: an insertion-ordered dict. EXTERNAL (Python), validated by T3. -/
+abbrev ClassDict := List (Name × Member)
+
+/-- `namespace[k] = v`: the LAST binding of a name wins; a rebound name keeps its first position -/
+def bindName : ClassDict → Name × Member → ClassDict
+  | [], kv => [kv]
+  | (k, v) :: r, kv => if k = kv.1 then (k, kv.2) :: r else (k, v) :: bindName r kv
+
+def lookupMember : ClassDict → Name → Option Member
+  | [], _ => none
+  | (k, v) :: r, n => if k = n then some v else lookupMember r n
+
+def fieldBindings : Nat → List Name → List (Name × Member)
+  | _, [] => []
+  | k, a :: r => (a, .field k) :: fieldBindings (k + 1) r
+
+/-- the statements `_message.py.j2` prints into the body of a message class, in order: nested enums and
+    messages; the `raw_page` property iff some field's ATTRIBUTE is `next_page_token`; one declaration per
+    field (`attrs` = `Field.name` of the fields, in order); the `done` property iff the message has an
+    extended-operation STATUS field (`message.extended_operation_status_field`). -/
+def classBody (nested attrs : List Name) (hasStatus : Bool) : List (Name × Member) :=
+  nested.map (fun n => (n, Member.nested)) ++
+  (if "next_page_token".toList ∈ attrs then [("raw_page".toList, Member.rawPage)] else []) ++
+  fieldBindings 0 attrs ++
+  (if hasStatus then [("done".toList, Member.done)] else [])
+
+def classDict (nested attrs : List Name) (hasStatus : Bool) : ClassDict :=
+  (classBody nested attrs hasStatus).foldl bindName []
+
+/-- the field declarations proto-plus's metaclass finds in the namespace (`attrs.items()`, dict order):
+    indices into the message's field list -/
+def fieldsSeen (d : ClassDict) : List Nat :=
+  d.filterMap fun kv => match kv.2 with | .field i => some i | _ => none
 
 /-! ### Module manifest -/
 
